@@ -56,9 +56,10 @@ class Selector(metaclass=InternedMC):
             if v.capture in captures:
                 cap = captures[v.capture]
                 for value in cap.values:
-                    match = v.value == value or (
-                        isinstance(v.value, MatchFunction) and v.value.fn(value)
-                    )
+                    if isinstance(v.value, MatchFunction):
+                        match = v.value.fn(value)
+                    else:
+                        match = v.value == value
                     if not match:
                         return False
         return True
@@ -783,6 +784,16 @@ class MatchFunction:
         self.fn = fn
 
 
+class _IdentityCheck:
+    """Match only the object itself (not objects that compare equal to it)."""
+
+    def __init__(self, obj):
+        self.obj = obj
+
+    def __call__(self, other):
+        return other is self.obj
+
+
 def _dig(fn):
     while hasattr(fn, "__wrapped__") and not is_tooled(fn):
         fn = fn.__wrapped__
@@ -806,7 +817,7 @@ def _resolve(selector, env, cnt):
                 Element(
                     name=selfname,
                     capture=selfname,
-                    value=fn.__self__,
+                    value=MatchFunction(_IdentityCheck(fn.__self__)),
                 )
             )
         else:
